@@ -159,7 +159,7 @@ class DictWriter:
                     elif (tag == []) or tag or isinstance(tag, (bool, int, float)):
                         # Custom odML tuples require special handling.
                         if attr == "values" and prop.dtype and \
-                                prop.dtype.endswith("-tuple") and prop.values:
+                                prop.dtype.lower().endswith("-tuple") and prop.values:
                             prop_dict["value"] = odml_tuple_export(prop.values)
                         else:
                             # Always use the arguments key attribute name when saving
